@@ -410,16 +410,17 @@ class PyEval:
         if isinstance(e, (ast.GeneratorExp, ast.ListComp, ast.SetComp, ast.DictComp)):
             benv = dict(env)
             gens = []
-            for g in e.generators:
-                it = self.expr(g.iter, benv, ev)
+            inner: list = []       # calls in the element expression happen once per element, not once: keep them out of the event list
+            for i, g in enumerate(e.generators):
+                it = self.expr(g.iter, benv, ev if i == 0 else inner)
                 for n in ast.walk(g.target):
                     if isinstance(n, ast.Name):
                         benv[n.id] = ('bound', n.id)
-                gens.append((ast.unparse(g.target), it, tuple(self.expr(c, benv, ev) for c in g.ifs)))
+                gens.append((ast.unparse(g.target), it, tuple(self.expr(c, benv, inner) for c in g.ifs)))
             if isinstance(e, ast.DictComp):
-                elt = ('pair', self.expr(e.key, benv, ev), self.expr(e.value, benv, ev))
+                elt = ('pair', self.expr(e.key, benv, inner), self.expr(e.value, benv, inner))
             else:
-                elt = self.expr(e.elt, benv, ev)
+                elt = self.expr(e.elt, benv, inner)
             kind = {ast.GeneratorExp: 'gen', ast.ListComp: 'listcomp', ast.SetComp: 'setcomp', ast.DictComp: 'dictcomp'}[type(e)]
             return ('comp', kind, elt, tuple(gens))
         if isinstance(e, ast.Lambda):
